@@ -174,11 +174,11 @@ LeafEq(R, a, b) ==
                        \/ "ubjH" \in R /\ b.k = "str" /\ CAboveMaxInt64(a.v) /\ AllDigits(b.v)
                           /\ CFromDec(FALSE, DigitsOf(b.v)) = a.v
     [] a.k = "f64"  -> \/ b.k = "f64" /\ a.v = b.v
-                       \/ "f2i" \in R /\ b.k = "int" /\ a.i = b.v
+                       \/ "f2i" \in R /\ b.k = "int" /\ (a.i = b.v \/ (b.i # <<>> /\ b.i = a.v))
                        \/ "f2i" \in R /\ b.k = "f64" /\ a.i # <<>> /\ a.i = b.i
                        \/ "nonfin" \in R /\ IsNonFinite64(a.v) /\ b.k = "nil"
     [] a.k = "f32"  -> \/ b.k = "f32" /\ a.v = b.v
-                       \/ "f2i" \in R /\ b.k = "int" /\ a.i = b.v
+                       \/ "f2i" \in R /\ b.k = "int" /\ (a.i = b.v \/ (b.s # <<>> /\ b.s = a.v))
                        \/ "f32as64" \in R /\ b.k = "f64" /\ b.s = a.v
                        \/ "nonfin" \in R /\ IsNonFinite32(a.v) /\ b.k = "nil"
     [] OTHER -> FALSE
